@@ -103,7 +103,12 @@ def universe(thorough):
            Ref([1, 0]), Ref([1, 2, 0]), Ref([0, 1]), Ref([0]), Ref([]), Ref([1, 2, 0, 0]),
            Exp("m", "f", 1), Exp("m", "f", 2), Exp("m", "g", 1), Fun(1, []), Fun(2, []), Fun(1, [I(1)]), Fun(1, [F(1.0)]), Fun(1, [I(2)]),
            Port(1), Port(2), Port(1, c=2), Port(1, loc=[1, 1, 1, 1, 1, 1, 1, 1]),
-           Pid(1), Pid(2), Pid(1, s=1), Pid(1, c=2), Pid(1, loc=[9, 8, 7, 6, 5, 4, 3, 2])]
+           Pid(1), Pid(2), Pid(1, s=1), Pid(1, c=2), Pid(1, loc=[9, 8, 7, 6, 5, 4, 3, 2]),
+           # every field at its full width: values that differ only in their high bits (or only beyond the low 16 / 32) are different identifiers
+           Port(5), Port(9), Port(2 ** 32), Port(2 ** 32 + 5), Port(2 ** 32 + 9), Port(2 ** 63), Port(2 ** 64 - 1), Port(5, c=2 ** 32 - 1), Port(5, c=2 ** 16 + 1),
+           Pid(2 ** 16 + 1), Pid(2 ** 31), Pid(2 ** 32 - 1), Pid(1, s=2 ** 16 + 1), Pid(1, s=2 ** 32 - 1), Pid(1, c=2 ** 16 + 1), Pid(1, c=2 ** 32 - 1),
+           Ref([2 ** 16 + 1]), Ref([2 ** 32 - 1]), Ref([1, 2 ** 32 - 1]), Ref([1], c=2 ** 16 + 1), Ref([1], c=2 ** 32 - 1),
+           Pid(1, node=A("n@i")), Pid(1, node=A("N@h"))]
     tuples = [T(), T(I(1)), T(F(1.0)), T(I(2)), T(I(1), I(2)), T(A("a")), T(T()), T(I(2 ** 53 + 1)), T(F(2.0 ** 53)), T(B(b"\x01")), T(Bits(b"\x01", 8) if False else B(b"\x01\x02")),
               T(I(1), A("z")), T(F(1.0), A("a")), T(L([I(1)])), T(L([I(1)], I(2)))]
     maps = [M(), M((I(1), A("a"))), M((F(1.0), A("a"))), M((I(1), A("b"))), M((I(2), A("a"))), M((A("a"), I(1)), (A("b"), I(2))), M((A("a"), I(2)), (A("b"), I(1))),
